@@ -5,7 +5,7 @@ from props.id_common import IdProp
 class C01(IdProp):
     pid = "C01"
     budgets = {"quick": 500, "thorough": 5000}
-    rule = ("random ADMGs with 2..6 nodes (7 thorough; forced isolated nodes, bows, bidirected-only nodes) x random disjoint X, Y; corpus of textbook graphs; "
+    rule = ("random ADMGs with 2..6 nodes (7 thorough; forced isolated nodes, bows, bidirected-only nodes) x random disjoint X, Y; corpus of textbook graphs; one query per shape of run of the recursion (harness/corpus/id_traces.json: sample of 150 in quick, all on <= 7 nodes in thorough, fresh node names); "
             "thorough adds every labelled ADMG on <= 3 nodes with every query. Non-trivial: the run reached line 6 or 7 (a topological order was used) or "
             "refused; distinct by (graph, X, Y)")
     explanation = ("identify_outcomes compared verbatim with the Gallina model (recorded topological orders replayed); every returned estimand is evaluated "
